@@ -57,6 +57,9 @@ type srcItem struct {
 	Op   string
 	Args []string
 	Atom bool // part of an IO unit (IO instruction + its padding): nothing may be inserted before it
+	// Meta: line-level metadata written after a label ("lbl: iomode:sync"); the line parser applies it to
+	// the next instruction line
+	Meta string
 }
 
 type macroDef struct {
@@ -83,6 +86,22 @@ type secGen struct {
 	explicit bool // also writes i2rw/r2owa/cpy/rset/j/nop instead of the pseudo forms
 	movLit   int  // mov <reg>, <literal>: 0 = never (rset is written), 1 = only for literals < 32, 2 = any literal
 	budget   int
+	// base: io mode the section-level / global metadata give to a pseudo-move of this program ("sync",
+	// "async" or "" = none at either level). Where it is not sync every mov to/from a port carries
+	// line-level `iomode:sync` metadata (precedence implemented by metadatainfer.go: line, section, global).
+	base   string
+	noLine bool // macro bodies: no line-level metadata
+}
+
+// lineIO writes, in front of a pseudo-move, a label that carries line-level io mode metadata.
+func (g *secGen) lineIO() {
+	if g.noLine {
+		return
+	}
+	if g.base == "sync" && rapid.IntRange(0, 3).Draw(g.t, "lineio") != 1 {
+		return
+	}
+	g.items = append(g.items, srcItem{Kind: kLabel, Name: g.newLabel(), Meta: "iomode:sync"})
 }
 
 // litOp picks the mnemonic that loads literal v.
@@ -291,6 +310,7 @@ func (g *secGen) emit() {
 	if g.explicit && rapid.Bool().Draw(g.t, "r2owaform") {
 		g.ins("r2owa", r, fmt.Sprintf("o%d", k))
 	} else {
+		g.lineIO()
 		g.ins("mov", fmt.Sprintf("o%d", k), r)
 	}
 	g.pads()
@@ -303,6 +323,7 @@ func (g *secGen) input() {
 	if g.explicit && rapid.Bool().Draw(g.t, "i2rwform") {
 		g.ins("i2rw", r, fmt.Sprintf("i%d", k))
 	} else {
+		g.lineIO()
 		g.ins("mov", r, fmt.Sprintf("i%d", k))
 	}
 	g.pads()
@@ -466,8 +487,8 @@ type sectionSrc struct {
 }
 
 // genSection draws one program.
-func genSection(t *rapid.T, name string, rsize int, macros []*macroDef, o genOpts, allowIn bool, movLit int, force *macroDef) *sectionSrc {
-	g := &secGen{t: t, rsize: rsize, movLit: movLit, labels: map[string]bool{}, usedIn: map[int]bool{}, usedOut: map[int]bool{}}
+func genSection(t *rapid.T, name string, rsize int, macros []*macroDef, o genOpts, allowIn bool, movLit int, force *macroDef, base string) *sectionSrc {
+	g := &secGen{t: t, rsize: rsize, movLit: movLit, base: base, labels: map[string]bool{}, usedIn: map[int]bool{}, usedOut: map[int]bool{}}
 	// register file: data registers first, loop counters last
 	switch rapid.IntRange(0, 3).Draw(t, "regshape") {
 	case 0:
@@ -480,7 +501,9 @@ func genSection(t *rapid.T, name string, rsize int, macros []*macroDef, o genOpt
 		g.nData, g.ctr = 2, []int{2}
 	}
 	for _, m := range macros {
-		if m.MaxReg < g.nData {
+		// a macro that moves data to a port gets the section-level/global io mode (its lines carry no
+		// line-level metadata): usable only where that is sync
+		if m.MaxReg < g.nData && (base == "sync" || !m.UsesOut) {
 			g.macros = append(g.macros, m)
 		}
 	}
@@ -569,6 +592,9 @@ func genSection(t *rapid.T, name string, rsize int, macros []*macroDef, o genOpt
 			}
 			if i < len(g.items) && g.items[i].Atom {
 				continue
+			}
+			if i > 0 && g.items[i-1].Meta != "" {
+				continue // line-level metadata would be applied to the directive instead of the move
 			}
 			cand = append(cand, i)
 		}
@@ -662,7 +688,7 @@ func genMacros(t *rapid.T, rsize int, o genOpts, movLit int) []*macroDef {
 	var ms []*macroDef
 	for i := 0; i < n; i++ {
 		m := &macroDef{Name: names[(i*2+rapid.IntRange(0, 1).Draw(t, "mname"))%len(names)]}
-		g := &secGen{t: t, rsize: rsize, movLit: movLit, labels: map[string]bool{}, usedIn: map[int]bool{}, usedOut: map[int]bool{}, maxOut: 1}
+		g := &secGen{t: t, rsize: rsize, movLit: movLit, base: "sync", noLine: true, labels: map[string]bool{}, usedIn: map[int]bool{}, usedOut: map[int]bool{}, maxOut: 1}
 		g.nData = rapid.IntRange(1, 2).Draw(t, "mregs")
 		m.MaxReg = g.nData - 1
 		g.explicit = rapid.Bool().Draw(t, "mexplicit")
@@ -755,7 +781,12 @@ func (r *renderer) items(items []srcItem) {
 	for _, it := range items {
 		switch it.Kind {
 		case kLabel:
-			r.line(r.ws(0) + it.Name + ":")
+			l := r.ws(0) + it.Name + ":"
+			if it.Meta != "" {
+				kv := strings.SplitN(it.Meta, ":", 2)
+				l += r.ws(1) + kv[0] + ":" + r.ws(0) + kv[1]
+			}
+			r.line(l)
 		case kEntry:
 			r.line(r.ws(0) + "entry" + r.ws(1) + it.Name)
 		case kUse:
@@ -806,7 +837,7 @@ func genSource(o genOpts) func(t *rapid.T) Case {
 		macros := genMacros(t, rsize, o, movLit)
 		var force *macroDef
 		if o.Leak {
-			g := &secGen{t: t, rsize: rsize, movLit: movLit, nData: 1, maxOut: 1, labels: map[string]bool{}, usedIn: map[int]bool{}, usedOut: map[int]bool{}}
+			g := &secGen{t: t, rsize: rsize, movLit: movLit, base: "sync", noLine: true, nData: 1, maxOut: 1, labels: map[string]bool{}, usedIn: map[int]bool{}, usedOut: map[int]bool{}}
 			g.alu(false)
 			g.emit() // explicit is false: written as mov o0, r0
 			force = &macroDef{Name: "send", Items: g.items, UsesOut: true}
@@ -824,15 +855,28 @@ func genSource(o genOpts) func(t *rapid.T) Case {
 		if o.Leak {
 			nSec = 2
 		}
-		globalSync := rapid.Bool().Draw(t, "globalsync")
+		// io mode metadata: at global level (none/sync/async), at section level (none/sync/async, the same as or
+		// different from the global one) and, per pseudo-move, at line level. metadatainfer.go resolves line, then
+		// section, then global. Sections are generated so that every pseudo-move resolves to sync (sections no
+		// CP runs are perturbed below).
+		global := rapid.SampledFrom([]string{"sync", "sync", "async", "async", ""}).Draw(t, "globalio")
+		if o.Leak {
+			global = rapid.SampledFrom([]string{"sync", ""}).Draw(t, "globalio_leak")
+		}
 		secNames := []string{"code", "main", "prog_b", "S2", "worker", "romA"}
 		var secs []*sectionSrc
 		for i := 0; i < nSec; i++ {
 			name := secNames[(i*2+rapid.IntRange(0, 1).Draw(t, "sname"))%len(secNames)]
-			s := genSection(t, name, rsize, macros, o, true, movLit, force)
-			if !globalSync || rapid.Bool().Draw(t, "secsync") {
-				s.IOMode = "sync"
+			secIO := rapid.SampledFrom([]string{"sync", "sync", "sync", "", "", "async"}).Draw(t, "secio")
+			if o.Leak && (secIO == "async" || global == "") {
+				secIO = "sync"
 			}
+			base := secIO
+			if base == "" {
+				base = global
+			}
+			s := genSection(t, name, rsize, macros, o, true, movLit, force, base)
+			s.IOMode = secIO
 			if o.Leak && i == 1 {
 				s.IOMode = "async"
 			}
@@ -864,8 +908,16 @@ func genSource(o genOpts) func(t *rapid.T) Case {
 		}
 		// a section no CP runs may be anything the assembler accepts: give it the other io mode now and then
 		for i, s := range secs {
-			if !usedSec[i] && rapid.IntRange(0, 2).Draw(t, "deadasync") == 0 {
+			if usedSec[i] {
+				continue
+			}
+			if rapid.IntRange(0, 2).Draw(t, "deadasync") == 0 {
 				s.IOMode = "async"
+			}
+			for k := range s.Items {
+				if s.Items[k].Meta != "" && rapid.IntRange(0, 2).Draw(t, "deadlineasync") == 0 {
+					s.Items[k].Meta = "iomode:async"
+				}
 			}
 		}
 		// wiring: fan-out 1. Every used output of a CP goes to one sink (an unfed input of a later CP,
@@ -994,8 +1046,8 @@ func genSource(o genOpts) func(t *rapid.T) Case {
 		}
 		metaChunks = append(metaChunks, func() {
 			kv := []string{fmt.Sprintf("registersize:%s%d", r.ws(0), rsize)}
-			if globalSync {
-				kv = append(kv, "iomode:"+r.ws(0)+"sync")
+			if global != "" {
+				kv = append(kv, "iomode:"+r.ws(0)+global)
 				kv = rapid.Permutation(kv).Draw(t, "bmdeforder")
 			}
 			r.line("%meta" + r.ws(1) + "bmdef" + r.ws(1) + "global" + r.ws(1) + strings.Join(kv, r.ws(0)+","+r.ws(0)))
@@ -1042,7 +1094,7 @@ func genLabelLeak(t *rapid.T) Case {
 	rsize := rapid.SampledFrom([]int{8, 16, 32, 64}).Draw(t, "rsize")
 	c.Cfg = cfgNoDyn
 	mk := func() *secGen {
-		return &secGen{t: t, rsize: rsize, movLit: 2, nData: 2, maxOut: 1, labels: map[string]bool{}, usedIn: map[int]bool{}, usedOut: map[int]bool{}}
+		return &secGen{t: t, rsize: rsize, movLit: 2, base: "sync", noLine: true, nData: 2, maxOut: 1, labels: map[string]bool{}, usedIn: map[int]bool{}, usedOut: map[int]bool{}}
 	}
 	x := rapid.SampledFrom([]string{"again", "X", "lbl_3", "back"}).Draw(t, "leaked")
 	r := &renderer{t: t, nl: "\n"}
